@@ -481,7 +481,7 @@ class Generator:
                         if c2 == "endfn":
                             break
                         if c2 in ("sig", "loop", "body-start", "body-end", "loop-start", "loop-end",
-                                  "before", "after", "replace-type", "decl", "closure", "opaque-closure", "desugar-for", "desugar-tuple-assign", "drop-stmt"):
+                                  "before", "after", "replace-type", "decl", "closure", "opaque-closure", "desugar-for", "desugar-tuple-assign", "drop-stmt", "deref-add-assign"):
                             cur = {"cmd": c2, "arg": a2, "lines": [], "line0": j + 2}
                             sections.append(cur)
                         else:
@@ -902,7 +902,7 @@ class Generator:
         probe_points = []
         for sec in sections:
             text = "\n".join(sec["lines"]).rstrip()
-            if not text.strip() and sec["cmd"] not in ("sig", "desugar-for", "desugar-tuple-assign"):
+            if not text.strip() and sec["cmd"] not in ("sig", "desugar-for", "desugar-tuple-assign", "deref-add-assign"):
                 continue
             cmd = sec["cmd"]
             sarg = sec["arg"]
@@ -966,6 +966,23 @@ class Generator:
             elif cmd == "desugar-tuple-assign":
                 if desugar_tuple_assign(src, blo, bhi, ed, rules) == 0:
                     raise LostAnchor("%s: %s has no destructuring assignment (R15)" % (file, path[-1]))
+            elif cmd == "deref-add-assign":
+                # R17: `x += &e` on integers is written `x += e` - std defines `impl AddAssign<&u64> for u64`
+                # as `*self += *other` (ASSUMED, A-std); this Verus build has no specification for the
+                # by-reference form.  Opt-in per function.
+                nrw = 0
+                q = blo
+                while q + 1 < bhi:
+                    if src.is_p(q, "+") and src.is_p(q + 1, "=") and s[q].end == s[q + 1].start and src.is_p(q + 2, "&") and not src.is_p(q + 3, "&"):
+                        ed.replace(s[q + 2].start, s[q + 2].end, "", 2)
+                        nrw += 1
+                    elif s[q].kind == PUNCT and s[q].text == "+=" and src.is_p(q + 1, "&"):
+                        ed.replace(s[q + 1].start, s[q + 1].end, "", 2)
+                        nrw += 1
+                    q += 1
+                if nrw == 0:
+                    raise LostAnchor("%s: %s has no `+= &expr` (R17)" % (file, path[-1]))
+                rules["R17"] = rules.get("R17", 0) + nrw
             elif cmd == "desugar-for":
                 am = re.match(r"(\d+)\s+(\S+)", sarg)
                 n = int(am.group(1))
